@@ -25,6 +25,7 @@ func C13(r *core.Run) {
 	provNoReorder(r)
 	provTailAppend(r)
 	provNames(r)
+	provRefs(r)
 }
 
 // provNumbers (R-PROV/V1).
@@ -537,4 +538,50 @@ func parentStr(n ast.Node) string {
 		return rhsHead(x.Lhs[0]) + " = " + rhsHead(x.Rhs[0])
 	}
 	return fmt.Sprintf("%T", n)
+}
+
+// provRefs (R-PROV/V5): which declaration a type reference denotes depends
+// only on the reference itself. Every lookup of a referenced type hands the
+// resolver the reference's own package and schema name; a name computed from
+// the context of the referring field (enclosing message, sibling nested
+// types) would let an appended declaration capture existing references.
+func provRefs(r *core.Run) {
+	r.Rule("R-PROV/V5", "every call of TypeResolver.ResolveType in j5convert passes `<ref>.Package` and `<ref>.Schema` — selector chains on the reference being resolved — and nothing computed from where the reference occurs: resolution is context-free, so declarations added elsewhere cannot change what an existing field refers to")
+	pk := r.P.Pkg(convRel)
+	if pk == nil {
+		r.Fatal("anchor: package %s not found", convRel)
+		return
+	}
+	info := pk.TypesInfo
+	core.AllFuncDecls(pk, func(fd *ast.FuncDecl) {
+		ast.Inspect(fd.Body, func(nd ast.Node) bool {
+			c, ok := nd.(*ast.CallExpr)
+			if !ok || len(c.Args) != 2 {
+				return true
+			}
+			s, ok := c.Fun.(*ast.SelectorExpr)
+			if !ok || s.Sel.Name != "ResolveType" {
+				return true
+			}
+			o := r.Add("R-PROV/V5", fmt.Sprintf("j5convert.%s | %s(%s, %s)", core.FuncName(fd), core.ExprStr(c.Fun), core.ExprStr(c.Args[0]), core.ExprStr(c.Args[1])), c.Pos(), "lookup of a referenced type")
+			bad := ""
+			for i, want := range []string{"Package", "Schema"} {
+				a, ok := core.Unparen(c.Args[i]).(*ast.SelectorExpr)
+				if !ok || a.Sel.Name != want {
+					bad = fmt.Sprintf("argument %d is %s, not the reference's own .%s", i+1, core.ExprStr(c.Args[i]), want)
+					break
+				}
+				if sel := info.Selections[a]; sel == nil || sel.Kind() != types.FieldVal {
+					bad = fmt.Sprintf("argument %d is not a field of the reference", i+1)
+				}
+			}
+			if bad == "" {
+				o.Auto("package and schema name are read off the reference")
+			} else {
+				o.Fail("%s: what a field refers to then depends on its surroundings, and an appended declaration can retarget existing references (same number and name, different message type)", bad)
+			}
+			return true
+		})
+	})
+	r.Floor("R-PROV/V5", 1, "ResolveType call sites in j5convert")
 }
